@@ -310,6 +310,17 @@ def infeasible_items(tier):
     for first, second in (("r1", "r2 { alternative r3 }"), ("r1 { alternative r3 }", "r2"), ("r1 { alternative r3 }", "r1 { alternative r3 }"), ("r1 { alternative r2 }", "r2 { alternative r3 }")):
         add(f"allocate {first} + allocate {second}", text='project p "P" 2025-01-06 +2w {\n}\nresource r1 "r1" {\n}\nresource r2 "r2" {\n}\nresource r3 "r3" {\n}\n'
             f'task a "a" {{\n  effort 6h\n  allocate {first}\n  allocate {second}\n}}\n')
+    # the one flag name the scheduler gives a meaning to ('contiguous': the task wants an unbroken block) x efficiencies incl. 0
+    # (a passive resource such as a room) x single / team / alternative x project mode
+    for eff in ("0", "0.5", "1.0", "2.5"):
+        for alloc in ("room", "room, dev", "dev, room", "dev { alternative room }", "room { alternative dev }"):
+            for alap in (False, True):
+                for flagged in (("a",), ("a", "b")):
+                    add(f"contiguous eff={eff} allocate {alloc} alap={alap} flagged={flagged}",
+                        text='project p "P" 2025-01-06 +2w {\n' + ("  scheduling alap\n" if alap else "") + '}\n'
+                        + f'resource room "Room" {{\n  efficiency {eff}\n}}\nresource dev "Dev" {{\n  efficiency 0.5\n  leaves annual 2025-01-08\n}}\n'
+                        + f'task a "a" {{\n  effort 11h\n  allocate {alloc}\n  flags contiguous\n}}\n'
+                        + f'task b "b" {{\n  effort 2h\n  allocate dev\n  depends a\n' + ("  flags contiguous\n" if "b" in flagged else "") + '}\n')
     add("macro missing args", text="macro two [ effort ${1} allocate ${2} ]\n" + base.replace("effort 90min", "${two}", 1))
     add("macro undefined", text=base.replace("effort 90min", "${nosuch}", 1))
     add("macro unterminated", text="macro bad [ effort 1h \n" + base)
